@@ -57,21 +57,30 @@ def main():
                 meta["error"] = out[-500:]
                 raise RuntimeError("patch does not apply")
             meta["files_touched"] = sh("git diff --stat", cwd=wt)[1].strip().splitlines()[:-1]
-            rc, out = sh("go build $(go list ./... | grep -v cmd/rpc)", cwd=wt)
+            rc, out = sh("go build ./store/... ./fsm/... ./lib/... ./controller/... ./bft/... ./p2p/... ./cmd/signer/...", cwd=wt)
             meta["compiles"] = rc == 0
             if rc != 0:
                 meta["error"] = out[-800:]
                 raise RuntimeError("does not compile")
-            # existing suite with the patch
-            rc, out = sh(["go", "test", "-count=1", "-vet=off"] + SUITE, cwd=wt)
-            meta["existing_suite_passes_with_patch"] = rc == 0
-            if rc != 0:
-                # p2p tests are timing sensitive under load: retry once
-                rc, out = sh(["go", "test", "-count=1", "-vet=off"] + SUITE, cwd=wt)
-                meta["existing_suite_passes_with_patch"] = rc == 0
-                meta["suite_retry"] = True
-                if rc != 0:
-                    meta["suite_tail"] = "\n".join(l for l in out.splitlines() if re.match(r"^(--- FAIL|FAIL|ok|panic)", l))[-1500:]
+            # existing suite with the patch: the touched packages and everything that imports them
+            touched = set(l.split("|")[0].strip().split("/")[0] for l in meta["files_touched"])
+            deps = {"store": ["./store/", "./fsm/", "./controller/"], "fsm": ["./fsm/", "./controller/"], "bft": ["./bft/", "./controller/"],
+                    "p2p": ["./p2p/", "./controller/"], "controller": ["./controller/"], "lib": SUITE, "cmd": ["./cmd/signer/"]}
+            suite = sorted(set(x for t in touched for x in deps.get(t, SUITE)))
+            meta["suite_packages"] = suite
+            failed = suite
+            for attempt in range(3):  # some p2p/bft tests of the repository are timing sensitive on a loaded machine: retry the failing packages
+                still = []
+                for pk in failed:
+                    rc, out = sh(["go", "test", "-count=1", "-vet=off", pk], cwd=wt)
+                    if rc != 0:
+                        still.append(pk)
+                        meta["suite_tail"] = "\n".join(l for l in out.splitlines() if re.match(r"^(--- FAIL|FAIL|ok|panic)", l))[-800:]
+                failed = still
+                if not failed:
+                    break
+                meta["suite_retry"] = attempt + 1
+            meta["existing_suite_passes_with_patch"] = not failed
             # demonstration
             demo = os.path.join(d, "demo_test.go")
             dpkg = pkg
